@@ -356,8 +356,10 @@ impl Gen {
                 out.push(Ev::Build { dst, op, args: vec![x] });
             }
             V_SUM => {
-                let kk = match self.rng.weighted(&[15, 45, 40]) {
-                    0 => 0,
+                // sum(0) is not generated: whether "the identity" returns the same node or a copy is not
+                // fixed by any property, and the shadow would have to assume one of the two
+                let kk = match self.rng.weighted(&[30, 45, 25]) {
+                    0 => 1 + self.rng.below(xd.len()),
                     1 => 1,
                     _ => xd.len(),
                 };
@@ -700,7 +702,12 @@ impl Gen {
                 // large enough for a second layer of 2x2 filters with stride 2 after a stride-2 first layer
                 let r = fr + 2 + self.rng.below(4);
                 let c = fc + 2 + self.rng.below(4);
-                vec![*depth, r, c]
+                if self.rng.chance(8, 100) {
+                    // a batch of images
+                    vec![1 + self.rng.below(2), *depth, r, c]
+                } else {
+                    vec![*depth, r, c]
+                }
             }
         };
         let n = numel(&dims);
